@@ -15,6 +15,7 @@ import (
 	"github.com/zishang520/engine.io/v2/transports"
 	"github.com/zishang520/engine.io/v2/types"
 	"github.com/zishang520/engine.io/v2/utils"
+	"github.com/zishang520/engine.io/v2/verifhook"
 	webtrans "github.com/zishang520/engine.io/v2/webtransport"
 	"github.com/zishang520/webtransport-go"
 )
@@ -202,6 +203,7 @@ func (s *server) onWebSocket(ctx *types.HttpContext, wsc *types.WebSocketConn) {
 			wsc.Close()
 		} else {
 			transport.SetPerMessageDeflate(s.Opts().PerMessageDeflate())
+			verifhook.At("upgrade.gated", id)
 			client.MaybeUpgrade(transport)
 		}
 	}
@@ -326,6 +328,7 @@ func (s *server) OnWebTransportSession(ctx *types.HttpContext, wt *webtransport.
 			session.CloseWithError(0, "")
 		} else {
 			transport.SetPerMessageDeflate(s.Opts().PerMessageDeflate())
+			verifhook.At("upgrade.gated", wth.Sid)
 			client.MaybeUpgrade(transport)
 		}
 	}
